@@ -44,13 +44,13 @@ func Engine() *worker.Engine {
 		NumSampled: func(p, tier string) int {
 			switch p + "/" + tier {
 			case "C19/quick":
-				return scale(400000)
+				return scale(1200000)
 			case "C19/thorough":
-				return scale(20000000)
+				return scale(50000000)
 			case "C01/quick":
-				return scale(150000)
+				return scale(500000)
 			case "C01/thorough":
-				return scale(8000000)
+				return scale(20000000)
 			}
 			return 1000
 		},
